@@ -36,6 +36,7 @@ type Options struct {
 type pipe struct {
 	name     string // "c2s" or "s2c" (tunnel roles, not network roles)
 	q        [][]byte
+	descs    []tr.E // description of each queued frame
 	sent     int
 	taken    int
 	released int
@@ -164,7 +165,7 @@ func (c *Carrier) Discard(dir string) ([]byte, bool) {
 	if p.released < p.taken {
 		p.released = p.taken
 	}
-	c.emit("wire.recv", tr.E{"dir": p.name, "n": p.taken, "raw": true})
+	c.emit("wire.recv", recvEvent(p, true))
 	c.cond.Broadcast()
 	return b, true
 }
@@ -273,6 +274,11 @@ func (c *Carrier) enqueue(p *pipe, b []byte, m proto.Message, desc func(proto.Me
 	e := desc(m)
 	e["dir"] = p.name
 	e["n"] = p.sent
+	cp := tr.E{}
+	for k, v := range e {
+		cp[k] = v
+	}
+	p.descs = append(p.descs, cp)
 	c.emit("wire.send", e)
 	c.cond.Broadcast()
 }
@@ -319,9 +325,20 @@ func (c *Carrier) take(p *pipe, into proto.Message) error {
 	if p.released < p.taken {
 		p.released = p.taken
 	}
-	c.emit("wire.recv", tr.E{"dir": p.name, "n": p.taken})
+	c.emit("wire.recv", recvEvent(p, false))
 	c.cond.Broadcast()
 	return proto.Unmarshal(b, into)
+}
+
+// recvEvent describes the frame just taken off pipe p (same fields as its
+// wire.send event, so that a trace can be validated without looking back).
+func recvEvent(p *pipe, raw bool) tr.E {
+	e := p.descs[0]
+	p.descs = p.descs[1:]
+	e["n"] = p.taken
+	e["raw"] = raw
+	delete(e, "t")
+	return e
 }
 
 func (c *Carrier) cliCloseSend() error {
